@@ -559,7 +559,14 @@ impl TransportHandle {
         if let (Some(net), Some(me), Some(my_addr)) =
             (&self.verif_net, &self.verif_id, &self.verif_addr)
         {
-            let peer_id = net.connect(me, my_addr, address).await.map_err(|e| {
+            // same bound as the QUIC dial below
+            let peer_id = tokio::time::timeout(
+                self.connection_timeout,
+                net.connect(me, my_addr, address),
+            )
+            .await
+            .map_err(|_| P2PError::Timeout(self.connection_timeout))?
+            .map_err(|e| {
                 P2PError::Network(NetworkError::InvalidAddress(format!("{address}: {e}").into()))
             })?;
             let peer_info = PeerInfo {
